@@ -27,3 +27,31 @@ Proof.
   rewrite (map_nth (fun x => x + c)). ring.
 Qed.
 End S.
+
+Lemma Qred_nonneg t : 0 <= t -> 0 <= Qred t.
+Proof. intro H. rewrite Qred_correct. exact H. Qed.
+
+(** relative variant (precipitation), C10: never negative, for a distribution on the non-negative half line *)
+Section Rel.
+Context {P : Type} (D : dist P).
+Hypothesis ppf_nonneg : forall p q, 0 <= ppf D p q.
+
+Lemma skipn_incl {A} (l : list A) : forall n x, In x (skipn n l) -> In x l.
+Proof. induction l as [|a l IH]; intros [|n] x H; cbn in *; try contradiction; auto. right. apply (IH n). exact H. Qed.
+
+Theorem sdm_relative_nonneg pr_thr cdf_thr obs hist fut out :
+  sdm_relative D pr_thr cdf_thr obs hist fut = Some out -> Forall (fun v => 0 <= v) out.
+Proof.
+  unfold sdm_relative. lazy zeta. destruct (_ || _)%bool; [discriminate|].
+  match goal with |- Some ?l = Some _ -> _ => set (L := l) end. intro E. injection E as <-. unfold L. clear L.
+  apply Forall_forall. intros v Hv. apply in_map_iff in Hv. destruct Hv as (i & <- & _).
+  assert (G : forall k (l : list Q), (forall y, In y l -> 0 <= y) -> 0 <= nth k l 0).
+  { intros k l H. destruct (nth_in_or_default k l 0) as [Hin|E]; [apply H; exact Hin|rewrite E; apply Qle_refl]. }
+  apply G. intros y Hin.
+  apply in_app_or in Hin. destruct Hin as [Hz|Hb].
+  - apply repeat_spec in Hz. rewrite Hz. apply Qle_refl.
+  - unfold last_n in Hb. apply skipn_incl in Hb. apply in_map_iff in Hb. destruct Hb as (k & <- & _).
+    apply Qred_nonneg. apply Qmult_le_0_compat; [apply ppf_nonneg|].
+    unfold Qdiv. apply Qmult_le_0_compat; [apply ppf_nonneg|]. apply Qinv_le_0_compat. apply ppf_nonneg.
+Qed.
+End Rel.
